@@ -1408,6 +1408,40 @@ def gen_ilv_case(rng):
     return mk_ilv_case(descs, iters, sched)
 
 
+def gen_grow_case(rng):
+    """limits set, the first print fits (nothing skipped); then the body grows past the limits - records appended
+    to the caller's list, or a record replaced so that a break line appears - and the table is printed again:
+    the second print has to show exactly the first n and last m lines and announce the rest"""
+    f, l = rng.randint(0, 3), rng.randint(0, 3)
+    n = rng.randint(max(0, f + l - 1), f + l + 1)          # fits: n <= f + l + 1 lines, no break lines yet
+    fields = [{"name": "id", "enum": None, "title": None}, {"name": "grp", "enum": None, "title": None},
+              {"name": "name", "enum": None, "title": None}]
+    records = [[i, "g", "v%d" % i] for i in range(n)]
+    cols = [{"f": "id", "mod": None, "brk": False, "w": gen_width(rng)},
+            {"f": "grp", "mod": None, "brk": True, "w": None},
+            {"f": "name", "mod": None, "brk": False, "w": rng.choice([None, [0, 0], [2, 6]])}]
+    how = rng.choice(["fmt", "kwarg"])
+    desc = {"valid": True, "fields": fields, "records": records, "cols": cols, "skip": None, "same": None,
+            "fmt_limits": [f, l] if how == "fmt" else None, "limits": [f, l] if how == "kwarg" else None,
+            "header": rng.choice([None, "H"]), "footer": rng.choice([None, "", "F"])}
+    desc["fmt"] = fmt_str(rng, cols, desc["fmt_limits"], plain=True)
+    evs = []
+    k = rng.random()
+    if k < 0.6 or n == 0:
+        for j in range(rng.randint(max(1, f + l + 2 - n), f + l + 4 - min(n, 2))):
+            evs.append("A0:" + "+".join(enc_val(v) for v in [100 + j, rng.choice(["g", "g", "h"]), "new%d" % j]))
+    else:
+        # a changed break-by value adds one or two break lines
+        i = rng.randrange(n)
+        evs.append("S0:%d:%s" % (i, "+".join(enc_val(v) for v in [i, "other", "v%d" % i])))
+        if rng.random() < 0.5:
+            evs.append("A0:" + "+".join(enc_val(v) for v in [99, "g", "tail"]))
+    first = [0] * rng.choice([1, 3, 40, 40, 40])      # the first print: in progress, or finished
+    c = mk_ilv_case([desc], [0, 0], first + evs + [1, 0, 1])
+    c["meta"] = {"kind": "grow-past-limits"}
+    return c
+
+
 def mk_obj2_case(rng, donor, pf, via, sa, sb, kind="siblings"):
     a = mk_obj_case(rng, donor, pf, via, sa)["desc2"]
     b = mk_obj_case(rng, donor, pf, via, sb)["desc2"]
@@ -1483,6 +1517,8 @@ def gen_cases(rng, tier):
         yield gen_obj2_case(rng)
     for _ in range(150 if quick else 3000):
         yield gen_wide_case(rng)
+    for _ in range(300 if quick else 6000):
+        yield gen_grow_case(rng)
     # helpers, directly
     for _ in range(600 if quick else 20000):
         chunks = [gen_text(rng, 6) for _ in range(rng.randint(0, 4))]
@@ -1726,6 +1762,15 @@ def tags(case, replies):
             yield "interleaved:record-appended-meanwhile"
         if any(str(x)[0] in "SV" for x in case["sched"]):
             yield "interleaved:list-edited-in-place-meanwhile"
+        if case.get("meta", {}).get("kind") == "grow-past-limits":
+            try:
+                snaps = descs_at_start(case["descs"], case["iters"], case["sched"])
+                a = spec_body(snaps[0], visible_columns(snaps[0]))[1]
+                b = spec_body(snaps[1], visible_columns(snaps[1]))[1]
+                if a is None and b is not None:
+                    yield "grow:first-print-fits-second-skips"
+            except Exception:
+                pass
         yield "interleaved:tables=%d" % len(set(case["iters"]))
         if len(set(case["iters"])) < len(case["iters"]):
             yield "interleaved:same-table-twice"
@@ -1781,7 +1826,9 @@ RULE = ("tables: 1-4 fields (one of them an enum in 40%), 0-12 records of mixed 
         "iterators over 1-3 tables (also two over one table) advanced in a random or zip-like interleaving, in half "
         "of the cases with set_limits on the live format / records appended, replaced or the list reversed in place "
         "at any point in between (print, edit, print again included) and zero-width columns, each "
-        "judged against its own table as it is when the iterator starts; tables wider than 256 / 999 characters with "
+        "judged against its own table as it is when the iterator starts; print (nothing skipped), grow the body past the "
+        "limits (records appended, or a record replaced so that a break line appears), print again; tables wider than "
+        "256 / 999 characters with "
         "values, headers and footers that fit exactly, by one more and by one less; two siblings from one format object, the "
         "second with its own limits=/skip_columns=, the first and the donor printed again afterwards; fit_to_width/resize_chunks_list "
         "called directly (diagnostic lines). non-trivial = a table with at least one record or a rejected one; "
